@@ -69,7 +69,9 @@ def apply_binder(kind, e, names):
 def nest_cases(depth):
     out = []
     for d in range(1, depth + 1):
-        for kinds in itertools.product(BINDERS, repeat=d):
+        # depth 3 uses the single-name binders only (the multi-name ones are complete to depth 2)
+        kinds_d = BINDERS if d <= 2 else tuple(k for k in BINDERS if k not in ("R2", "S2"))
+        for kinds in itertools.product(kinds_d, repeat=d):
             nslots = 1 + sum(SLOTS[k] for k in kinds)
             for assign in itertools.product(NAMES, repeat=nslots):
                 body = ("B", "mul", _T(("a", "b"), 71), _T((assign[0],), 72))
